@@ -137,6 +137,7 @@ class Interp:
         heap: bool = False,
         local_tables: bool = False,
         module_attrs: Optional[Dict[str, Any]] = None,
+        getattr_default_as_ifexp: bool = False,
     ):
         self.mod = mod
         self.consts = dict(mod.consts)
@@ -161,6 +162,7 @@ class Interp:
         self.fork_while = fork_while
         self.named_containers = named_containers   # a local bound to a fresh empty container keeps its name as identity
         self.replay_logs = replay_logs             # append-only local lists hold what was appended on the path; a later `for` over them replays it
+        self.getattr_default_as_ifexp = getattr_default_as_ifexp   # getattr(x, "n", d) read as `x.n if hasattr(x, "n") else d` (decided like any conditional expression)
         self.local_tables = local_tables   # a store `T[<constant>] = v` into a local that holds a dict display with constant keys updates that display
         self.module_attrs = dict(module_attrs or {})   # imported module name -> names it binds at top level (decides hasattr(module, "NAME"))
         self.heap_on = heap            # attribute stores are visible to later reads of the same attribute term on the path
@@ -1189,6 +1191,13 @@ class _EvalBuilder(_Builder):
 
     def _fold_call(self, s: Sym) -> Sym:
         f, args, kw = s[1], s[2], s[3]
+        if not kw and f == N("getattr") and len(args) == 3 and args[1][0] == "c" and isinstance(args[1][1], str) and self.i.getattr_default_as_ifexp:
+            # getattr(x, "name", d) is x.name when x has the attribute, else d
+            cond_ = ("call", N("hasattr"), (args[0], args[1]), ())
+            attr_ = self.i._rewrite(("a", args[0], args[1][1]))
+            if self.i.fork_ifexp and not self.pure:
+                return attr_ if self.i.truth_sym(cond_) else args[2]
+            return ("ife", cond_, attr_, args[2])
         if not kw and f[0] == "a" and f[1] == N("re") and f[2] in ("match", "search", "fullmatch") and len(args) == 2 and all(a[0] == "c" and isinstance(a[1], str) for a in args):
             # a regular expression applied to a constant: the match (its groups) or None
             import re as _re
@@ -1212,6 +1221,22 @@ class _EvalBuilder(_Builder):
                 if k_[1] == args[0][1] and type(k_[1]) is type(args[0][1]):
                     return v_
             return args[1] if len(args) == 2 else C(None)
+        if not kw and f[0] == "a" and f[2] == "get" and f[1][0] == "dictd" and len(args) in (1, 2) and f[1][1]:
+            # a display keyed by global names (classes / functions): {Union: .., list: ..}.get(<reference to such a global>, default)
+            def _ref(t_):
+                if t_[0] == "c" and type(t_[1]).__name__ == "SymName":
+                    return str(t_[1])
+                if t_[0] in ("n", "a"):
+                    d_ = dotted(t_)
+                    return d_ if d_ and "?" not in d_ and not d_.startswith("$") and d_ not in self.i.frames[-1] else None
+                return None
+            want_ = _ref(args[0])
+            keys_ = [_ref(k_) for k_, _ in f[1][1]]
+            if want_ is not None and all(k_ is not None for k_ in keys_) and (args[0][0] == "c" or want_ in keys_):
+                for k_, (_, v_) in zip(keys_, f[1][1]):
+                    if k_ == want_:
+                        return v_
+                return args[1] if len(args) == 2 else C(None)
         if not kw and len(args) == 1 and f[0] == "a" and f[2] == "join" and f[1][0] == "c" and isinstance(f[1][1], (bytes, str)) and len(f[1][1]) == 0 \
                 and args[0][0] in ("list", "tuple") and args[0][1] and not any(x[0] == "star" for x in args[0][1]):
             # b"".join([a, b, c]) is a + b + c
